@@ -70,6 +70,9 @@ var perturbPoints = map[string]bool{
 	"merge.introduced": true, "merge.cleanup": true, "merge.done": true,
 	"memmerge.marked": true, "memmerge.written": true, "memmerge.beforeIntro": true, "memmerge.introduced": true,
 	"memmerge.equiv": true, "copy.file": true, "copy.memfile": true, "persist.file": true, "snap.release": true,
+	// a reader gets its snapshot: a pause here widens the gap between two snapshots
+	// taken by ONE read operation (which then no longer observes one state)
+	"reader.open": true,
 }
 
 // HoldRule parks the goroutine that reaches Point (with probability Prob) until
